@@ -132,4 +132,25 @@ theorem walkE_path : ∀ (e : Entry) (t : List Bool) (s : Nat) (rest : List Bool
     exact ⟨p, by rw [pathsE]; exact hp, ht⟩
 end
 
+/-! ### a `.short` result leaves a suffix of the bits -/
+
+mutual
+theorem walkL_short_suffix : ∀ (l : Level) (t q : List Bool), walkL l t = .short q → ∃ c, t = c ++ q
+  | .mk k tbl, t, q, h => by
+    rw [walkL_mk] at h
+    by_cases hc : k = 0 ∨ k > 8 ∨ t.length < k
+    · rw [if_pos hc] at h; cases h; exact ⟨[], rfl⟩
+    · rw [if_neg hc] at h
+      obtain ⟨c, hc'⟩ := walkT_short_suffix tbl _ _ q h
+      exact ⟨t.take k ++ c, by rw [List.append_assoc, ← hc', List.take_append_drop]⟩
+theorem walkT_short_suffix : ∀ (tbl : List Entry) (i : Nat) (t q : List Bool),
+    walkT tbl i t = .short q → ∃ c, t = c ++ q
+  | [], _, _, _, h => by rw [walkT] at h; cases h
+  | e :: _, 0, t, q, h => by rw [walkT] at h; exact walkE_short_suffix e t q h
+  | _ :: es, i+1, t, q, h => by rw [walkT] at h; exact walkT_short_suffix es i t q h
+theorem walkE_short_suffix : ∀ (e : Entry) (t q : List Bool), walkE e t = .short q → ∃ c, t = c ++ q
+  | .sym s, t, q, h => by rw [walkE] at h; cases h
+  | .sub l, t, q, h => by rw [walkE] at h; exact walkL_short_suffix l t q h
+end
+
 end H3.Huffman
